@@ -29,6 +29,8 @@ Tol == [ closed   |-> [sl |-> 5,     bal |-> 100,     jump |-> 200,     int |-> 
          (* EHEP: closed forms, but the solver assigns points within ~1e-6 of a region boundary to the first region *)
          (* it tests (point_on_line tolerance): located fronts carry that fuzz                                    *)
          ehep     |-> [sl |-> 5,     bal |-> 100,     jump |-> 2000,    int |-> 2000,    field |-> 2000],
+         (* general-EOS Riemann solver, 2001-point tables: shocks smeared over one cell, fans from an ODE table *)
+         geos     |-> [sl |-> 2000,  bal |-> 500000,  jump |-> 500000,  int |-> 500000,  field |-> 500000],
          sedov    |-> [sl |-> 20,    bal |-> 3000000, jump |-> 1000,    int |-> 50000,   field |-> 100000] ]
 
 (* ---- equation of state (C03) --------------------------------------- *)
